@@ -215,6 +215,27 @@ def check(tier: str, seed: int) -> Result:
         classes.add(label.split(":")[0] + ":" + label.split(":")[1])
         for sig, msg, case in v:
             viols.append(Violation(sig, msg, case))
+    # beyond the small scope: the 600th generation of a configuration is as good as the first (registries, caches and counters
+    # that change behaviour after some hundreds of generated classes)
+    bulk_cfgs = [c for c in cfgs if c[0] in ("alphabet:src", "alphabet:mul3", "alphabet:probe_r", "alphabet:ren_r_factor", "alphabet:slice_mul", "alphabet:sweep_op",
+                                             "alphabet:sink_cfg", "alphabet:paysrc")]
+    keep = []
+    for rnd in range(600):
+        for label, cfg in bulk_cfgs:
+            try:
+                if rnd % 60 == 59 or rnd >= 597:
+                    for sig, msg, case in judge(label, cfg):
+                        viols.append(Violation(sig + "|after-many-generations", f"generation {rnd + 1} of {label}: {msg}", {"label": label, "bulk": rnd + 1}))
+                    n += 1
+                else:
+                    from semantiva.pipeline.nodes._pipeline_node_factory import _pipeline_node_factory
+
+                    keep.append(_pipeline_node_factory(copy.deepcopy(cfg)))
+                    if len(keep) > 40:
+                        del keep[:20]  # most earlier generations die, some stay alive
+            except Exception as exc:
+                viols.append(Violation("generation-fails|after-many-generations", f"generation {rnd + 1} of {label}: {type(exc).__name__}: {exc}", {"label": label, "bulk": rnd + 1}))
+                break
     cov = {
         "evaluations": n, "distinct_nontrivial": len(classes),
         "rule": "every node configuration of the alphabet, every component kind with and without node-level parameters, probes with context keys, "
@@ -233,5 +254,11 @@ def replay(case) -> List[Violation]:
     harness.load_config(gen.yaml_config(("src",)))
     for label, cfg in yaml_node_configs() + factory_nodes():
         if label == case["label"]:
+            if case.get("bulk"):
+                from semantiva.pipeline.nodes._pipeline_node_factory import _pipeline_node_factory
+
+                keep = [_pipeline_node_factory(copy.deepcopy(cfg)) for _ in range(int(case["bulk"]))]
+                del keep[: max(0, len(keep) - 20)]
+                return [Violation(s + "|after-many-generations", m, c) for s, m, c in judge(label, cfg)]
             return [Violation(s, m, c) for s, m, c in judge(label, cfg)]
     return []
